@@ -1,6 +1,6 @@
 """C03 — solution iteration yields every solution exactly once (structural clauses B1–B3)."""
 from ..main import run_rule
-from ..flow import resolver, peel, root_local, guards_of
+from ..flow import resolver, peel, root_local, guards_of, show
 from ..symexec import SymExec, variant_name, path_variants
 from ..facts import AnchorMissing, op_const_int
 
@@ -30,7 +30,7 @@ def b1(led, rid, ctx):
     f = lib.fn("solution_iterator::get_blocking_clause")
     iters = [c for c in f.calls if (c.trait or "").endswith("iter::Iterator") or
              (c.defn or "").startswith("std::iter::")]
-    bad = [c.name for c in iters if c.name not in ADAPTORS_OK]
+    bad = [c.name for c in iters if c.name not in ADAPTORS_OK and c.name not in ("next", "into_iter")]
     led.check(not bad, rid, "no-selecting-adaptor", f.span, "iterator chain: %s" % [c.name for c in iters],
               "the blocking clause is built through %s: some domains are left out of it, so other "
               "solutions are blocked too (or the same solution is found again)" % bad)
@@ -38,7 +38,39 @@ def b1(led, rid, ctx):
     led.check(len(gd) == 1 and root_local(f, gd[0].args[0]) == 1, rid, "ranges-over-solution-domains",
               f.span, "", "the clause does not range over solution.get_domains()")
     cl = [c for c in f.closures]
-    led.check(len(cl) == 1, rid, "one-closure", f.span, "", "expected one mapping closure, found %d" % len(cl))
+    if not cl:
+        # loop form: `for variable in solution.get_domains() { clause.push([variable != value(variable)]) }`
+        R = resolver(f)
+        pushes = [c for c in f.calls if c.name == "push" and len(c.args) >= 2]
+        other = [c.name for c in f.calls if c.name in ("retain", "remove", "truncate", "pop", "swap_remove", "drain", "clear", "dedup")]
+        preds = [c for c in f.calls if c.name in ("disequality_predicate", "equality_predicate",
+                                                  "lower_bound_predicate", "upper_bound_predicate")]
+        ok = len(pushes) == 1 and not other and len(preds) == 1 and preds[0].name == "disequality_predicate"
+        led.check(ok, rid, "predicate-is-!=", f.span, "one push of one `!=` predicate per domain",
+                  "the blocking clause loop has %d pushes, modifies the clause with %s and builds %s"
+                  % (len(pushes), other, [c.name for c in preds]))
+        if ok:
+            p = preds[0]
+            recv = peel(R.operand(p.args[0]), calls=None)
+            val = peel(R.operand(p.args[1]), calls=None)
+            from_iter = lambda e_: any(x.k == "call" and x.a.name == "next" for x in e_.walk()) and \
+                any(x.k == "call" and x.a.name == "get_domains" for x in e_.walk())
+            ok2 = from_iter(recv) and val.k == "call" and val.a.name == "get_integer_value" and \
+                from_iter(peel(R.operand(val.a.args[1]), calls=None)) and root_local(f, val.a.args[0]) == 1
+            pushed = R.operand(pushes[0].args[1])
+            ok3 = any(x is p for x in pushed.calls())
+            # the push happens for every element: guarded by nothing but the Some edge of the iteration
+            extra = [show(g_.atom)[:40] for g_ in guards_of(f, pushes[0].bb)
+                     if not (g_.kind == "variant" and g_.val == "Some") and not g_.neg
+                     and not any(x.k == "call" and x.a.name == "next" for x in g_.atom.walk())]
+            led.check(ok2 and ok3 and not extra, rid, "own-value-of-own-domain", p.span,
+                      "[variable != solution.get_integer_value(variable)] pushed for every domain",
+                      "the loop does not push, for every domain, the predicate comparing the domain with its own value "
+                      "in the solution (%s)" % (", ".join(extra) or show(val)[:80]))
+        led.check(True, rid, "one-closure", f.span, "loop form", "")
+        iters_ok = True
+    else:
+        led.check(len(cl) == 1, rid, "one-closure", f.span, "", "expected one mapping closure, found %d" % len(cl))
     if len(cl) == 1:
         g = cl[0]
         R = resolver(g)
